@@ -221,9 +221,9 @@ def _iso_child_body(task, label):
             # the native evaluation already holds a concrete failing input that is not a listed finding: the check will report it, and
             # walking the rest of the ladder for obligations that no longer prove would only cost time
             return any(not str(f.get("signature", "")).startswith("F-") for c in _c["h"].get("clauses", []) for f in c.get("failures", []))
-    # a pure lemma does not depend on the code under verification: it gets three times the budget, so that a nonlinear lemma one back end needs most of the
+    # a pure lemma does not depend on the code under verification: it gets twice the budget, so that a nonlinear lemma one back end needs most of the
     # budget for does not flip to "unknown" when the machine is busy (the verdict would be UNDECIDED, never a violation - but a degraded check)
-    tmo = _ISO["timeout"] * (3 if isinstance(task, LemmaTask) else 1)
+    tmo = _ISO["timeout"] * (2 if isinstance(task, LemmaTask) else 1)
     vs = solve.discharge(r.obls, timeout_s=tmo, all_backends=_ISO["all_backends"], give_up=give_up, jobs=_ISO["jobs"]) if r.obls else []
     cs = solve.discharge(r.covers, timeout_s=_ISO["cover_timeout"], jobs=_ISO["jobs"]) if r.covers else []
     obls = [Rec(name=o.name, kind=o.kind, fn=o.fn, note=o.note, line=getattr(o, "line", 0), goal=str(o.goal)[:400], n_hyps=len(o.hyps)) for o in r.obls]
